@@ -524,6 +524,8 @@ class Ev:
             return LibV("numpy.float64")
         if isinstance(v, ArrV) and name in ("tolist", "flatten", "ravel"):
             return BoundLib(f"arr.{name}", v)
+        if isinstance(v, ArrV) and name == "tobytes":
+            return BoundLib("ndarray.tobytes", v)
         if isinstance(v, ArrV) and name == "ndim":
             return sp.Integer(v.batch + len(v.shape))
         if isinstance(v, ArrV) and name == "shape":
@@ -1148,6 +1150,12 @@ class Ev:
             base = base.val
         if hasattr(base, "sym_subscript"):
             return base.sym_subscript(self, idx, n, mod)
+        if isinstance(base, PairList):
+            # dictionary look-up with keys that define __eq__ (and a consistent __hash__): the entry whose key equals idx
+            for kk, vv in base.pairs:
+                if _same(self, kk, idx, n, mod):
+                    return vv
+            raise RaisedV("KeyError", f"{mod.rel}:{getattr(n, 'lineno', 0)}" if mod else "")
         if isinstance(base, Opaque):
             return Opaque(f"{base.name}[{idx!r}]")
         if isinstance(base, ShapeOf):
@@ -2720,6 +2728,11 @@ def lib_np_round(ev, a, k, n, mod):
             return q
         return sp.Function(f"ROUND{dec}")(v) if dec else sp.Function("ROUND")(v)
     x = a[0]
+    if isinstance(x, Tup) and x.items and all(is_sym(i) for i in x.items):
+        # numpy.round of a sequence of (grid) vectors is an array: one constant axis over the items
+        out = ArrV(1, (len(x.items),), batch_last=True)
+        out.cells = {(i,): one(v) for i, v in enumerate(x.items)}
+        return out
     if isinstance(x, Tup):
         return Tup([one(i) for i in x.items], x.kind)
     if isinstance(x, ArrV):
@@ -3373,7 +3386,12 @@ class BytesKey:
 
 
 def lib_tobytes(ev, a, k, n, mod):
-    return BytesKey(as_sym(a[0]))
+    x = a[0]
+    if isinstance(x, ArrV):
+        # the content of a small array: the tuple of its cells (distinct contents, distinct keys)
+        cells = [x.get(key) for key in itertools.product(*[range(d) for d in x.shape])]
+        return BytesKey(sp.Tuple(*[as_sym(c) for c in cells]))
+    return BytesKey(as_sym(x))
 
 
 def lib_opaque_reduce(name):
